@@ -49,6 +49,7 @@ type zzMsgs struct {
 	// lateWriteErr: the frame is written (and, with auto, answered) and the write is then reported as
 	// failed all the same (an error that surfaces after the bytes have left)
 	lateWriteErr func(n int) error
+	closeErr     error // what Close reports (a TLS close_notify that cannot be written, ...); the socket is closed all the same
 }
 
 func newZZMsgs(capIn int) *zzMsgs {
@@ -150,7 +151,7 @@ func (m *zzMsgs) Close() error {
 		close(m.closedCh)
 	}
 	m.mu.Unlock()
-	return nil
+	return m.closeErr
 }
 
 // deliver hands one frame to the reader; eof makes the next read fail.
